@@ -62,6 +62,7 @@ type bcCall struct {
 	retEv   int // event during which the return was observed
 	startEv int
 	wrote   bool
+	fastAck string // the acknowledgement event a fast broker delivered during the call's own start event
 }
 
 func (e *bcEngine) Gen(rng *rand.Rand, tier string, n int, emit func(string)) {
@@ -80,6 +81,34 @@ func (e *bcEngine) Gen(rng *rand.Rand, tier string, n int, emit func(string)) {
 	emit("conn ack:0:0 pub:1:5 disc pa:5")
 	emit("conn ack:0:0 sub:1:7 sa:7:0001")
 	emit("wf:1 conn lclose")
+	// every request kind with an acknowledgement of every OTHER kind carrying its identifier injected before its own
+	// acknowledgement, on a connection where every waiter map has been used before (all five maps exist)
+	{
+		warm := "pub:1:1 pa:1 pub:2:2 pr:2 pc:2 sub:1:3 sa:3:01 unsub:4 ua:4"
+		own := map[string][]string{"pub:1:5": {"pa:5"}, "pub:2:5": {"pr:5", "pc:5"}, "sub:1:5": {"sa:5:01"}, "unsub:5": {"ua:5"}}
+		var ks []string
+		for k := range own {
+			ks = append(ks, k)
+		}
+		sort.Strings(ks)
+		for _, k := range ks {
+			for _, foreign := range []string{"pa:5", "pr:5", "pc:5", "sa:5:01", "ua:5"} {
+				isOwn := false
+				for _, o := range own[k] {
+					if o == foreign {
+						isOwn = true
+					}
+				}
+				if isOwn {
+					continue
+				}
+				emit("conn ack:0:0 " + warm + " " + k + " " + foreign + " " + strings.Join(own[k], " "))
+			}
+		}
+	}
+	// a very fast broker: the acknowledgement is processed before the request's Write returns
+	emit("conn ack:0:0 fast unsub:5 ua:5 fast pub:1:6 pa:6 fast sub:2:7 sa:7:0102 fast ping pg fast pub:2:8 pr:8 pc:8")
+	emit("conn ack:0:0 pub:1:3 fast unsub:4 ua:4 pa:3 fast pub:2:9 pr:9 fast ping pg pc:9")
 	// inbound application messages: acknowledged by the reader itself; a failing acknowledgement write ends the connection with an error
 	emit("conn ack:0:0 in:0:0 in:1:5 in:2:6 in:2:6 rel:6 rel:6 rel:9 pub:1:5 pa:5")
 	emit("conn ack:0:0 pub:1:3 wf:1 in:1:5 pa:3")
@@ -204,8 +233,51 @@ func (e *bcEngine) Gen(rng *rand.Rand, tier string, n int, emit func(string)) {
 		if rng.Intn(2) == 0 {
 			evs = append(evs, []string{"eof", "lclose", "bad", "disc"}[rng.Intn(4)])
 		}
-		emit(strings.Join(evs, " "))
+		// some requests are answered by a very fast broker (acknowledgement processed before Write returns)
+		var evs2 []string
+		for _, ev := range evs {
+			t := strings.Split(ev, ":")
+			ack := ""
+			switch {
+			case t[0] == "pub" && t[1] == "1":
+				ack = "pa:" + t[2]
+			case t[0] == "pub" && t[1] == "2":
+				ack = "pr:" + t[2]
+			case t[0] == "sub":
+				ack = "sa:" + t[2] + ":" + strings.Repeat("01", atoi(t[1]))
+			case t[0] == "unsub":
+				ack = "ua:" + t[1]
+			case t[0] == "ping":
+				ack = "pg"
+			}
+			if ack != "" && rng.Intn(6) == 0 {
+				evs2 = append(evs2, "fast", ev, ack)
+			} else {
+				evs2 = append(evs2, ev)
+			}
+		}
+		emit(strings.Join(evs2, " "))
 	}
+}
+
+// bcAckBytes: the bytes a broker sends for an acknowledgement token (nil if the token is not one)
+func bcAckBytes(ev string) []byte {
+	t := strings.Split(ev, ":")
+	switch t[0] {
+	case "pa":
+		return specAck(0x40, uint16(atoi(t[1])))
+	case "pr":
+		return specAck(0x50, uint16(atoi(t[1])))
+	case "pc":
+		return specAck(0x70, uint16(atoi(t[1])))
+	case "sa":
+		return specSubAck(uint16(atoi(t[1])), mustDesc(t[2]))
+	case "ua":
+		return specAck(0xb0, uint16(atoi(t[1])))
+	case "pg":
+		return specPacket(0xd0, nil)
+	}
+	return nil
 }
 
 func bcRet(kind string, subs []mqtt.Subscription, err error) string {
@@ -285,9 +357,11 @@ func (e *bcEngine) Exec(f []string) Result {
 	var planMiss []string
 	curEv := 0
 	var evRets [][]int // calls that returned during each event
+	pendingFast := ""
 	start := func(kind string, cid, n int) {
 		ctx, cancel := context.WithCancel(context.Background())
-		cl := &bcCall{kind: kind, id: cid, n: n, cancel: cancel, startEv: curEv}
+		cl := &bcCall{kind: kind, id: cid, n: n, cancel: cancel, startEv: curEv, fastAck: pendingFast}
+		pendingFast = ""
 		mu.Lock()
 		calls = append(calls, cl)
 		mu.Unlock()
@@ -323,10 +397,30 @@ func (e *bcEngine) Exec(f []string) Result {
 		}()
 	}
 	inited := false
+	fastNext := false
+	fed := map[int]bool{} // acknowledgement events already delivered by a "fast" broker
 	for i, ev := range evs {
 		mu.Lock()
 		curEv = i
 		mu.Unlock()
+		if fastNext && inited && i+1 < len(evs) && (strings.HasPrefix(ev, "pub:") || strings.HasPrefix(ev, "sub:") || strings.HasPrefix(ev, "unsub:") || ev == "ping") {
+			// a very fast broker: the acknowledgement (the next event) has been read and processed by the client's
+			// reader goroutine before the request's Write returns to the calling goroutine
+			if ack := bcAckBytes(evs[i+1]); ack != nil {
+				fed[i+1] = true
+				pendingFast = evs[i+1]
+				var once sync.Once
+				tr.mu.Lock()
+				tr.onWrite = func(p []byte) {
+					once.Do(func() {
+						tr.feed(ack)
+						tr.waitDrained()
+					})
+				}
+				tr.mu.Unlock()
+			}
+			fastNext = false
+		}
 		before := map[int]bool{}
 		mu.Lock()
 		for j, cl := range calls {
@@ -336,7 +430,12 @@ func (e *bcEngine) Exec(f []string) Result {
 		}
 		mu.Unlock()
 		t := strings.Split(ev, ":")
+		if fed[i] {
+			t = []string{"already-fed"}
+		}
 		switch t[0] {
+		case "fast":
+			fastNext = true
 		case "conn":
 			start("conn", 0, 0)
 			inited = true
@@ -491,6 +590,9 @@ func (e *bcEngine) Exec(f []string) Result {
 			continue
 		}
 		ev := evs[cl.retEv]
+		if cl.fastAck != "" && cl.retEv == cl.startEv {
+			ev = cl.fastAck // answered by a fast broker while the call was being made
+		}
 		want := ""
 		switch cl.kind {
 		case "conn":
@@ -613,6 +715,102 @@ func (e *bcEngine) Exec(f []string) Result {
 					}
 				}
 			}
+		}
+	}
+	// C07 (converse, `C07.own_ack_completes`): on a connection that stays healthy for the whole script, a request whose
+	// identifier no other request of its kind uses and which is never cancelled completes once its own
+	// acknowledgement(s) have arrived after it was made — however fast the broker answers
+	{
+		healthy := false
+		for _, ev := range evs {
+			if strings.HasPrefix(ev, "ack:") && strings.HasSuffix(ev, ":0") {
+				healthy = true
+			}
+		}
+		for _, ev := range evs {
+			t := strings.Split(ev, ":")
+			switch t[0] {
+			case "eof", "lclose", "bad", "disc", "wf":
+				healthy = false
+			case "ack":
+				if !strings.HasSuffix(ev, ":0") {
+					healthy = false
+				}
+			}
+		}
+		if len(ackFail) > 0 || invalidSubAckSeen(rets) {
+			healthy = false
+		}
+		cancelled := map[int]bool{}
+		for _, ev := range evs {
+			if strings.HasPrefix(ev, "cancel:") {
+				cancelled[atoi(ev[7:])] = true
+			}
+		}
+		idUse := map[string]int{}
+		for _, cl := range calls {
+			idUse[fmt.Sprintf("%s:%d", cl.kind, cl.id)]++
+		}
+		connAt := -1
+		for i, ev := range evs {
+			if strings.HasPrefix(ev, "ack:") && connAt < 0 {
+				connAt = i
+			}
+		}
+		for k, cl := range calls {
+			if !healthy || cancelled[k] || cl.startEv < connAt || idUse[fmt.Sprintf("%s:%d", cl.kind, cl.id)] != 1 {
+				continue
+			}
+			var need []string
+			switch cl.kind {
+			case "pub1":
+				need = []string{fmt.Sprintf("pa:%d", cl.id)}
+			case "pub2":
+				need = []string{fmt.Sprintf("pr:%d", cl.id), fmt.Sprintf("pc:%d", cl.id)}
+			case "unsub":
+				need = []string{fmt.Sprintf("ua:%d", cl.id)}
+			case "sub":
+				need = []string{fmt.Sprintf("sa:%d:", cl.id)}
+			default:
+				continue
+			}
+			pos, ok := cl.startEv, true
+			for _, nd := range need {
+				found := -1
+				for j := pos + 1; j < len(evs); j++ {
+					if evs[j] == nd || (strings.HasSuffix(nd, ":") && strings.HasPrefix(evs[j], nd) && len(mustDesc(strings.SplitN(evs[j], ":", 3)[2])) == cl.n) {
+						found = j
+						break
+					}
+				}
+				if found < 0 {
+					ok = false
+					break
+				}
+				pos = found
+			}
+			if ok && !(cl.done && strings.HasPrefix(cl.ret, "ok")) {
+				props = append(props, viol("C07", "own-ack-not-honoured", "call %d (%s id %d) is still blocked (or failed: %q) although its own acknowledgement %v arrived after it was made, on a healthy connection", k, cl.kind, cl.id, cl.ret, need))
+			}
+		}
+	}
+	// C06: a malformed packet ends the link. If the first thing that can end the connection in this script is a
+	// malformed packet (`bad`: reserved packet type 15) arriving on an established reader, the client must close with
+	// ErrInvalidPacket, whatever it was doing (e.g. after unsolicited PINGRESPs)
+	{
+		firstEnd, connStarted := -1, false
+		for i, ev := range evs {
+			t := strings.Split(ev, ":")
+			if t[0] == "conn" {
+				connStarted = true
+			}
+			if connStarted && firstEnd < 0 && (t[0] == "eof" || t[0] == "lclose" || t[0] == "bad" || t[0] == "disc" || t[0] == "wf" || ackFail[i] ||
+				(t[0] == "ack" && t[2] != "0") || t[0] == "cancel" || t[0] == "sa") {
+				firstEnd = i
+			}
+		}
+		if firstEnd >= 0 && evs[firstEnd] == "bad" && (dn != 1 || bcErrClass(c.Err()) != "E:InvalidPacket") {
+			props = append(props, viol("C06", "malformed-packet-did-not-end-link", "a packet of the reserved type 15 arrived on a healthy connection (event %d) but Done() closed=%v and Err()=%v", firstEnd, dn == 1, c.Err()))
 		}
 	}
 	// Disconnect never waits for anything: it returns within its own event, also while other calls are blocked
